@@ -35,6 +35,7 @@ func TestC04LiquidPaymentWindow(t *testing.T) {
 	rapid.Check(t, func(t *rapid.T) {
 		lnd := rapid.Bool().Draw(t, "lnd")
 		out := rapid.Bool().Draw(t, "swapOut")
+		sim.CaseStart(t)
 		s := newTakerScenario("lbtc", out, lnd)
 		defer s.W.Close()
 		// anchors incl. small heights and the uint32 edge
